@@ -43,6 +43,7 @@ inductive Key where
   | str (s : Bytes)
   | num (i : Int)
   | strs (l : List Bytes)
+  | nil                           -- `$nil`: a legitimate map key, stored outside the hash tree
   deriving DecidableEq, Repr
 
 /-- The dynamic type seen by `ConvertListIndex`. -/
@@ -50,6 +51,7 @@ def Key.raw : Key → C13.Raw
   | .str s => .str s
   | .num i => .int i
   | .strs _ => .other
+  | .nil => .other
 
 /-- Elvish values of the model. -/
 inductive Val where
